@@ -100,7 +100,7 @@ func c05GenOptSeqs(r *verifh.Rng) []verifh.Section {
 	for _, lib := range []string{"fx", "mr"} {
 		apis := []string{"walk", "map", "filter", "parallel"}
 		if lib == "mr" {
-			apis = []string{"foreach", "void", "mapreduce"}
+			apis = []string{"foreach", "void", "mapreduce", "chan"}
 		}
 		for i := 0; i < verifh.Scale(7, 120); i++ {
 			var ops []string
@@ -125,7 +125,15 @@ func c05GenOptSeqs(r *verifh.Rng) []verifh.Section {
 				if lib == "mr" {
 					pan = r.Pick(0, 0, 0, 10)
 				}
-				ops = append(ops, fmt.Sprintf("run opt=%s api=%s items=%d pan=%d exits=%s rs=%d", opt, apis[r.Intn(len(apis))], items, pan, r.PickS("s", "seg", "g"), r.Intn(1<<30)))
+				api := apis[r.Intn(len(apis))]
+				if lib == "mr" && r.Chance(1, 5) {
+					// mr.Finish / FinishVoid(fns...) take no options: they ask for WithWorkers(len(fns)) themselves, so
+					// the cap of the run is the number of functions — written as the option the driver derives it from
+					api = r.PickS("finish", "finishvoid")
+					items = r.Range(1, 12)
+					opt = "w" + strconv.Itoa(items)
+				}
+				ops = append(ops, fmt.Sprintf("run opt=%s api=%s items=%d pan=%d exits=%s rs=%d", opt, api, items, pan, r.PickS("s", "seg", "g"), r.Intn(1<<30)))
 			}
 			secs = append(secs, verifh.Section{Cfg: fmt.Sprintf("kind=%sopts mode=conc", lib), Ops: ops})
 		}
@@ -221,6 +229,38 @@ func c05StartOptSeq(cfg verifh.Cfg) (func(op []string) string, func()) {
 					}
 					w.Write(k)
 				}, mro...)
+			case "mr/chan":
+				source := make(chan int)
+				go func() {
+					defer close(source)
+					for i := 0; i < items; i++ {
+						source <- i
+					}
+				}()
+				_, _ = mr.MapReduceChan(source, func(item int, w mr.Writer[int], cancel func(error)) {
+					body(item)
+					w.Write(item)
+				}, func(pipe <-chan int, w mr.Writer[int], cancel func(error)) {
+					k := 0
+					for range pipe {
+						k++
+					}
+					w.Write(k)
+				}, mro...)
+			case "mr/finish":
+				fns := make([]func() error, items)
+				for i := range fns {
+					i := i
+					fns[i] = func() error { body(i); return nil }
+				}
+				_ = mr.Finish(fns...)
+			case "mr/finishvoid":
+				fns := make([]func(), items)
+				for i := range fns {
+					i := i
+					fns[i] = func() { body(i) }
+				}
+				mr.FinishVoid(fns...)
 			default:
 				panic("bad-api")
 			}
